@@ -16,7 +16,7 @@ CLAIMS = {
          "callers discharge callee preconditions at static call sites. Structural obligations: the static call graph has no recursion, every loop is a range loop (or carries a decreases clause), there are no goroutines, and os.WriteFile in the code generator is the only file-mutating call. "
          "Preconditions that remain are of three kinds, all listed in the contracts: injected collaborators are non-nil (composition root), resolvers are asked only about arguments they support (proved at ArgResolver), and a printed line fits the row / EndIndent follows Indent (proved at StepVerboseSwitchable)."),
    note=("Not proved: that the composition root (internal/gontainer, reflection-driven runtime) wires non-nil collaborators and that validation precedes the compile steps (Compiler.Compile is proved to stop at the first failing step; the step order is wiring), termination and panic-freedom of external libraries (yaml.v3, cobra, gonum cycle enumeration, goimports, text/template), stdout write failures (A13). "
-         "Trusted (bodies not verified): regex.Match, types.IsPrimitive, token.toExpr, template.createDefaultFunctions, cmd.buildRunner, runner.DecorateStepVerboseSwitchable, input.init#2. Functions not under contract have their callees' effects havoc'ed. " + TB),
+         "Trusted (bodies not verified): regex.Match, types.IsPrimitive, template.createDefaultFunctions, cmd.buildRunner, runner.DecorateStepVerboseSwitchable, input.init#2. Functions not under contract have their callees' effects havoc'ed. " + TB),
    design="DESIGN.md section 4 C12"),
  "C05": dict(
    technique="contract-based deductive verification: contracts on the real scope conversion and shared-on-contextual validator over go/ssa with a ghost edge relation for the library graph, SMT",
@@ -38,14 +38,14 @@ CLAIMS = {
          "each argument form is classified and compiled as documented (non-string primitive keeps its value, @name depends on exactly that service, !tagged t on exactly that tag, $gontainer / !value have no dependencies, other strings are patterns); "
          "resolveArgs / serviceCalls / serviceTags keep length and order, serviceFields yields one field per key in strictly increasing name order, processService maps a todo service to a bare placeholder and any other service attribute by attribute, "
          "StepCompileServices.Process yields one service per declaration sorted by name with the declared scope."),
-   note=(HALF + "Not covered: CompileServiceValue / serviceConstructor / serviceType splitting of a reference into import and symbol (word equations over regex captures time out), exporter.MustExport's Go literal. Resolving is treated as a function of the argument for one compilation (assumed contracts of the injected interfaces). " + TB),
+   note=(HALF + "Partly covered: CompileServiceValue / serviceConstructor / serviceType keep the pointer prefix and emit local and current-package forms as written; the qualified form alias(import).symbol is not stated (word equations over regex captures time out), exporter.MustExport's Go literal. Resolving is treated as a function of the argument for one compilation (assumed contracts of the injected interfaces). " + TB),
    design="DESIGN.md section 4 C02"),
  "C03": dict(
-   technique="contract-based deductive verification: contracts on the real token factories, tokenizer and pattern resolver over go/ssa, SMT; regex language equivalence for the token grammars",
-   text=("Proof that chunks are classified by the first supporting factory (registered functions are prepended, so they come first), that %% is a literal percent, %name% a reference whose dependency list names exactly the referenced parameter, plain text a string token, "
+   technique="contract-based deductive verification: contracts on the real chunker (loop invariants, definitional recursion, induction lemmas), token factories, tokenizer and pattern resolver over go/ssa, SMT; regex language equivalence for the token grammars",
+   text=("Proof that Chunker.Chunks cuts the string without dropping, adding or reordering text (the chunks concatenate to the input), that every chunk is a non-empty literal without % or a %...% token, that it fails iff the number of % is odd, that toExpr strips exactly the two delimiters, that chunks are classified by the first supporting factory (registered functions are prepended, so they come first), that %% is a literal percent, %name% a reference whose dependency list names exactly the referenced parameter, plain text a string token, "
          "unexpected functions/tokens are rejected at build time, the tokenizer yields one token per chunk in order and accepts iff every chunk is accepted, a single token keeps its type (dependencyProvider of that token) and an empty token list is an error, "
          "a pattern depends on exactly the parameters its tokens reference, parameters cannot depend on services or tags, and the built-in functions are exactly env/envInt/todo."),
-   note=(HALF + "Chunker.Chunks (rune loop with a string builder) is not under contract; toExpr has a trusted contract ([]rune conversions). What the emitted closures compute at run time is outside. " + TB),
+   note=(HALF + "Assumption A7 for Chunks and toExpr: the strings they range over / convert to []rune are valid UTF-8 (YAML guarantees it), so rune k occupies a byte segment and string(r) is that segment. joinTo and pct are definitional recursions (axioms); their frame lemmas are proved by induction. What the emitted closures compute at run time is outside. " + TB),
    design="DESIGN.md section 4 C03"),
  "C04": dict(
    technique="contract-based deductive verification: order/length-preservation contracts on the real tag and decorator compilation and merge functions over go/ssa, SMT",
@@ -72,24 +72,26 @@ CLAIMS = {
    text=("Proof over the step algebra, for all step lists and all step behaviours: Runner.Run runs the steps in order up to and including the first failing one and returns exactly that step's error, nil iff all ran and returned nil; "
          "StepAmalgamated runs every sub-step once and accepts iff all accept; StepVerboseSwitchable runs its parent exactly once when active (returning its verdict unchanged, Indent/EndIndent balanced) and not at all when inactive; "
          "StepCodeGenerator calls Build exactly once, calls os.WriteFile at most once, only after a successful Build, with filepath.Clean(-o) and exactly Build's string, and succeeds iff the write succeeded; "
-         "findFiles returns cleaned paths in lexical order. Structural obligation: that os.WriteFile call is the only file-mutating call in the repository, so on any failure before it the -o path is untouched."),
-   note=("Not covered (evaluated/assumed, not proved): the composition root (which steps are wired in which order, that the generator is last), cobra's RunE closure that prints the numbered error list and maps err to exit status 1, os.WriteFile's own atomicity (A13), StepReadConfig.Run's read loop. "
+         "the END line of a failing step reports exactly len(grouperror.Collection(err)) errors; findFiles returns cleaned paths in lexical order; the RunE closure of NewBuildCmd hands its flags to the composition root unchanged, gives it io.Discard as writer under --quiet, and prints its own error list only to that same writer. Structural obligation: that os.WriteFile call is the only file-mutating call in the repository, so on any failure before it the -o path is untouched."),
+   note=("Not covered (evaluated/assumed, not proved): the composition root (which steps are wired in which order, that the generator is last), that cobra maps a non-nil error to exit status 1, the numbering text of the error list (fatih/color calls are assumed effects recorded with their writer), os.WriteFile's own atomicity (A13). "
          "Each function's contract speaks about its own direct effectful calls; the end-to-end statement is the composition of these contracts given the wiring. " + TB),
    design="DESIGN.md section 4 C10"),
  "C16": dict(
    technique="contract-based deductive verification: contracts over a ghost trace of effectful calls on the real switchable/amalgamated steps (go/ssa), SMT",
    text=("Proof that an inactive StepVerboseSwitchable does not run its parent, returns nil and leaves input and output untouched, that an active one returns the parent's verdict unchanged, that Active(b) changes nothing but the flag, "
          "that StepAmalgamated runs all rule steps regardless of each other's verdict and accepts iff every one accepts, that StepOutputValidationRule returns exactly its rule's verdict on an unmodified Output, "
-         "and (from C06) that the two switchable rules are ValidateParamsExist / ValidateServicesExist with exact accept-iff contracts. Hence deactivating a rule removes exactly that rule's diagnostics and nothing else."),
-   note=("Not covered (evaluated/assumed, not proved): that --ignore-missing-params / --ignore-missing-services are bound to the Active flags of exactly those two rule steps (cobra flag binding and the generated composition root in internal/gontainer), and byte-identity of the generated file. " + TB),
+         "that the RunE closure of NewBuildCmd passes paramsExistActive = !--ignore-missing-params and servicesExistActive = !--ignore-missing-services (and nothing else, e.g. not --stub) to the composition root, "
+         "and (from C06, C05, C07) that the rules have exact accept-iff contracts that do not look at each other. Hence deactivating a rule removes exactly that rule's diagnostics and nothing else."),
+   note=("Not covered (evaluated/assumed, not proved): that the payload fields are bound to the Active flags of exactly those two rule steps inside buildRunner (generated composition root in internal/gontainer: evaluated for all four flag combinations), which Go variable a cobra flag name is bound to, and byte-identity of the generated file. " + TB),
    design="DESIGN.md section 4 C16"),
  "C14": dict(
    technique="contract-based deductive verification: contracts and a data-structure invariant on the real imports table over go/ssa, string/regex SMT",
    text=("Proof that decorateImport resolves a reference through the alias table on whole path segments only (the alias that applies is the first path segment; a lemma shows no other alias can match), "
          "that Alias keeps the import-table invariant (every used path has the local name i<hex(c)>_<sanitised last element> of a distinct counter value, hence the same package always gets the same name and different packages never share one), "
          "that RegisterPrefixAlias rejects exactly duplicates, that Imports() lists every used package once in strictly increasing path order, that SanitizeImport maps quoted/unquoted/'.' forms as documented, "
+         "that StepCompileMeta registers every alias of meta.imports before any function and that functions resolve their import when a token is created (never at registration), that local and current-package (\".\") forms of constructor / type / decorator references are emitted unqualified and the pointer prefix is kept, "
          "and that the alias and import grammars equal their documented languages."),
-   note=("Build-time half. Not covered: how the compile steps split a reference into import and symbol (regex captures: the obligations time out and were dropped), template-internal imports (an alias equal to a standard package name such as fmt still captures the template's own import: recorded in DESIGN.md section 5 as not expressible by the current contracts), goimports pruning, linking. "
+   note=("Build-time half. Not covered: the qualified forms alias(import) + "." + symbol of references (word equations over regex captures: the obligations time out and were dropped), template-internal imports (an alias equal to a standard package name such as fmt still captures the template's own import: recorded in DESIGN.md section 5 as not expressible by the current contracts), goimports pruning, linking. "
          "hex/sanitise/last-segment are abstract functions with an assumed injectivity axiom. " + TB),
    design="DESIGN.md section 4 C14"),
  "C11": dict(
@@ -113,7 +115,7 @@ CLAIMS = {
    text=("Proof that ValidateVersion implements the truth table of the property for every (B, V): skipped iff no version is declared or the build is not semver; "
          "for build major 0 accepted iff V has major 0 and the same minor; for major >= 1 iff same major and minor not greater; patch, prerelease and build never appear. "
          "NewVersionValidator and Version.UnmarshalYAML are under contract too (the latter establishes the type invariant the gate requires)."),
-   note=("semver.IsValid/Major/MajorMinor/Compare are assumed contracts over an abstract parser (svValid, svMaj, svMin; A12, read off semver.go). main.buildVersion (strips a leading v from the linker-provided version) and the wiring of the version into NewDefaultValidator are not under contract. " + TB),
+   note=("semver.IsValid/Major/MajorMinor/Compare are assumed contracts over an abstract parser (svValid, svMaj, svMin; A12, read off semver.go). main.buildVersion$1 (strips a leading v from the linker-provided version) is proved; the RunE closure is proved to pass version and buildInfo unswapped; that buildRunner feeds p.version (not the build info) to the validator is evaluated by the composition test (four configuration versions against build 1.2.3), not proved. " + TB),
    design="DESIGN.md section 4 C18"),
  "C06": dict(
    technique="contract-based deductive verification: WP/VC generation over go/ssa of the real existence validators, SMT (z3/cvc5)",
@@ -128,8 +130,8 @@ CLAIMS = {
    text=("Proof, for all inputs and unbounded sizes, that every function of input/merge.go and slices.Copy meets a contract transcribed from the "
          "property (later scalar wins, maps united key-wise with later value winning, non-empty later arguments replace, calls/tags/decorators appended in order), "
          "plus machine-checked lemmas over those contracts: Merge is associative up to extensional equivalence and the empty input is a left and right identity. "
-         "Split invariance is the corollary (any split is a re-bracketing of the same fold)."),
-   note=("Build-time half only: the read loop of StepReadConfig (glob, clean, sort, fold) is not yet under contract; the HO-contract of maps.Iterate is assumed at call sites. " + TB),
+         "Split invariance is the corollary (any split is a re-bracketing of the same fold). StepReadConfig.Run is proved to produce exactly the left fold of Merge over the readable, parsable files taken pattern by pattern in -i order and, within a pattern, in findFiles order (cleaned, sorted); NewBuildCmd registers -i as a string *array* flag (one pattern per occurrence, no comma splitting)."),
+   note=("Build-time half only. Assumed: os.ReadFile / filepath.Glob are functions of their argument for the duration of a run, yaml.Unmarshal is a function of its bytes and target type; the HO-contract of maps.Iterate at call sites; pflag/cobra contracts. mergeFiles/mergePatterns are definitional recursions (axioms). " + TB),
    design="DESIGN.md section 4 C09"),
 }
 
